@@ -144,8 +144,9 @@ def _mc_api(ctx):
                    "CONSTRAINT Bounded\nPROPERTIES %s\n" % API_CLAUSES, label="admin-API contract clauses, 2 clients", timeout=600)
     # the implementation-shaped layer refines it (every interleaving of the etcd operations)
     if ctx.quick:
-        r = ctx.tlc_mc("AdminApi", api_cfg("{1, 2}", '{"a", "b"}', 2), label="admin API impl refines contract: 2 clients x 2 requests, 2 names", timeout=900)
+        r = ctx.tlc_mc("AdminApi", api_cfg("{1, 2}", '{"a"}', 2), label="admin API impl refines contract: 2 clients x 2 requests, 1 name", timeout=900)
     else:
+        r = ctx.tlc_mc("AdminApi", api_cfg("{1, 2}", '{"a", "b"}', 2), label="admin API impl refines contract: 2 clients x 2 requests, 2 names", timeout=900)
         r = ctx.tlc_mc("AdminApi", api_cfg("{1, 2, 3}", '{"a"}', 2), label="admin API impl refines contract: 3 clients x 2 requests, 1 name", timeout=2400)
     ctx.log("AdminApi refines AdminApiContract: %d distinct states" % r.distinct)
     # non-vacuity: without the lock the refinement fails
